@@ -98,5 +98,8 @@ def obligations(tier, seed):
                           bound=dict(items=n, values='any int', ctx=ctx)))
     for inner in ('count_last', 'scan'):
         obs.append(Ob(PROP, 'runs', dict(ctx='root', pred='tup3', inner=inner, n=3 if q else 5), budget=300 if q else 900, bound=dict(items=3 if q else 5)))
+    for k in (1, 2):
+        for ctx in ('root', 'roll22'):
+            obs.append(Ob(PROP, 'runs', dict(ctx=ctx, pred='tup3', inner='to_list', n=3, retry=k), budget=300 if q else 900, group='after an aborted subscription', bound=dict(items=3, ctx=ctx, first_subscription_aborted_after=k)))
     obs.append(Ob(PROP, 'runs', dict(ctx='root', pred='tup3', inner='to_list', n=3, _twin='reach'), budget=60, expect='refute'))
     return obs
